@@ -18,8 +18,13 @@ response: `<res>,<res>,…|<content of meta.json as doc ids>|<stale lock 0/1>|<s
 namespace TantivyModel.Driver.C11
 open TantivyModel TantivyModel.Proto TantivyModel.Faults
 
+/-- With the guard built before the flush (`Gen.LOCK_GUARD_BEFORE_FLUSH = 1`) a failing flush of
+the new lock file drops the guard, i.e. it is, for the lock, a failing construction: the driver
+maps the observed phase accordingly, so the model follows the code as it is. -/
+def lockFlushPhase : Phase := if Gen.LOCK_GUARD_BEFORE_FLUSH == 1 then .ctorRead else .lockFlush
+
 def phaseOf : String → Option Phase
-  | "lo" => some .lockOpen | "lf" => some .lockFlush | "ld" => some .lockDelete
+  | "lo" => some .lockOpen | "lf" => some lockFlushPhase | "ld" => some .lockDelete
   | "cr" => some .ctorRead | "wk" => some .worker | "pu" => some .purge | "sm" => some .saveMeta
   | "gl" => some .gcLock | "gd" => some .gcDelete | "gm" => some .gcManaged
   | "mt" => some .mergeThread | "ep" => some .endMergePurge | "es" => some .endMergeSave
